@@ -187,7 +187,7 @@ theorem trans_call_b {own : Nat → Nat → Prop} {ini : Entry → Prop} {s : Sy
 /-! ### who wins an election has sent its request -/
 
 /-- a vote request of `k` for term `t` in the transport: `k`'s term is at least `t` -/
-theorem req_term_le {s : Sys} (I1 : Inv1 s) {k t : Nat} {st : NState} (hk : s.node k = some st)
+private theorem req_term_le {s : Sys} (I1 : Inv1 s) {k t : Nat} {st : NState} (hk : s.node k = some st)
     (hr : Req s.net k t) : t ≤ st.raft.term := by
   obtain ⟨q, hq, hqt, hqf, hqterm⟩ := hr
   have hrv : isRVm q = true := by unfold isRVm; simp [hqt]
